@@ -9,6 +9,8 @@ import (
 	"unsafe"
 
 	"google.golang.org/protobuf/encoding/protodelim"
+	"google.golang.org/protobuf/encoding/protojson"
+	"google.golang.org/protobuf/encoding/prototext"
 	"google.golang.org/protobuf/encoding/protowire"
 	"google.golang.org/protobuf/proto"
 	"google.golang.org/protobuf/reflect/protoreflect"
@@ -68,7 +70,7 @@ func (c14) Gen(r *sim.Rng, tier string) *scn.Scn {
 	s.P["bufsize"] = int64([]int{16, 32, 64, 256, 4096}[r.Intn(5)])
 	var ops []scn.Op
 	n := r.Range(4, 16)
-	kinds := []string{"unmarshal", "unmarshal", "unmarshal", "unmarshal-from", "clone", "merge", "scribble", "scribble", "mutate", "mutate", "observe", "observe", "unmarshal-merge", "reuse"}
+	kinds := []string{"unmarshal", "unmarshal", "unmarshal", "unmarshal-from", "clone", "merge", "scribble", "scribble", "mutate", "mutate", "observe", "observe", "unmarshal-merge", "reuse", "unmarshal-json", "unmarshal-text"}
 	for i := 0; i < n; i++ {
 		op := scn.Op{Op: kinds[r.Intn(len(kinds))], Obj: r.Intn(nobj), N: int64(r.Intn(nslots)), M: int64(r.Intn(nslots)), S: fmt.Sprint(r.U64() >> 1)}
 		op.Flag = r.Chance(1, 3) // unmarshal: NoLazyDecoding / DiscardUnknown variations encoded in Path
@@ -391,6 +393,42 @@ func (c14) Run(s *scn.Scn, x *sim.Exec) {
 			if !uo.NoLazyDecoding {
 				lazyPending++
 			}
+		case "unmarshal-json", "unmarshal-text":
+			// the text codecs read from a caller's buffer too: nothing of the message may point into it
+			src := c14New(typ)
+			if err := (proto.UnmarshalOptions{AllowPartial: true, NoLazyDecoding: true}).Unmarshal(append([]byte(nil), s.Objects[obj].Wire...), src); err != nil {
+				return sim.OpResult{}
+			}
+			var text []byte
+			var err error
+			if op.Op == "unmarshal-json" {
+				text, err = protojson.MarshalOptions{AllowPartial: true}.Marshal(src)
+			} else {
+				text, err = prototext.MarshalOptions{AllowPartial: true}.Marshal(src)
+			}
+			if err != nil || len(text) == 0 {
+				return sim.OpResult{}
+			}
+			buf := append(make([]byte, 0, len(text)+int(seed%7)), text...)
+			owned = append(owned, ownedBuf{buf, fmt.Sprintf("the %s input buffer of op %d", strings.TrimPrefix(op.Op, "unmarshal-"), opi)})
+			if !slots[k].used {
+				slots[k].m = c14New(typ)
+			}
+			p := c14New(typ)
+			if op.Op == "unmarshal-json" {
+				err = protojson.UnmarshalOptions{AllowPartial: true}.Unmarshal(buf, slots[k].m)
+				protojson.UnmarshalOptions{AllowPartial: true}.Unmarshal(append([]byte(nil), text...), p)
+			} else {
+				err = prototext.UnmarshalOptions{AllowPartial: true}.Unmarshal(buf, slots[k].m)
+				prototext.UnmarshalOptions{AllowPartial: true}.Unmarshal(append([]byte(nil), text...), p)
+			}
+			if err != nil {
+				slots[k] = c14Slot{}
+				return sim.OpResult{}
+			}
+			slots[k].expected, _ = detBytes(p)
+			slots[k].used = true
+			x.Probe("text-codec-decodes", 1)
 		case "unmarshal-from":
 			if br == nil {
 				brSrc = bytes.NewReader(stream)
